@@ -174,7 +174,7 @@ func runC16(tier string) int {
 	if tier == "thorough" {
 		maxIns = 3
 	}
-	paths := []string{`dir\sub/f.pory`, `other/g.pory`, `h.pory`}
+	paths := []string{`dir\sub/f.pory`, `other/g.pory`, `h.pory`, `dïr\ポケ\é.pory`}
 	for pi := range c16Corpus {
 		prog := c16Corpus[pi]
 		toks := c16Parse(prog.text)
